@@ -135,6 +135,11 @@ pub struct StubSource<'a, X: Item> {
     hint: u8,
     cap: usize,
     calls: usize,
+    /// a source that is not fused: it returns `None` once after `gap_at` elements and would go on
+    /// yielding afterwards; its sequence ends at that first `None`
+    gap_at: Option<usize>,
+    gap_done: bool,
+    polled_after_end: &'a mut usize,
 }
 impl<'a, X: Item> Iterator for StubSource<'a, X> {
     type Item = X;
@@ -145,6 +150,12 @@ impl<'a, X: Item> Iterator for StubSource<'a, X> {
             std::panic::panic_any(Injected);
         }
         if self.pulled.len() >= self.eof_after {
+            return None;
+        }
+        if self.gap_done {
+            *self.polled_after_end += 1;
+        } else if self.gap_at == Some(self.pulled.len()) {
+            self.gap_done = true;
             return None;
         }
         let x = self.buf.pop_front()?;
@@ -769,12 +780,14 @@ impl<'s, K: Kind<X>, X: Item> VecExec<'s, K, X> {
                 let mut items: VecDeque<X> = VecDeque::with_capacity(n + 4);
                 K::arr_drain(a, &mut items);
                 let src_model: Vec<Grp> = std::mem::take(&mut self.model);
-                let mode = op.a % 4;
+                let mode = op.a % 5;
                 let j = (op.b & 0xff) as usize;
                 let hint = ((op.b >> 8) & 3) as u8;
                 let mut eof_after = usize::MAX;
                 let mut panic_at = 0usize;
                 let mut surplus = 0usize;
+                let mut gap_at: Option<usize> = None;
+                let mut polled_after_end = 0usize;
                 match mode {
                     0 => {
                         self.st.probes[P_FROMITER_EXACT] += 1;
@@ -788,6 +801,13 @@ impl<'s, K: Kind<X>, X: Item> VecExec<'s, K, X> {
                     2 => {
                         surplus = 1 + j % 3;
                         self.st.probes[P_FROMITER_SURPLUS] += 1;
+                        self.st.fault_cfg[F_SOURCE] += 1;
+                        self.st.fault_fired[F_SOURCE] += 1;
+                    }
+                    4 => {
+                        // not fused: one `None` after j % n elements, more elements behind it
+                        gap_at = Some(j % n);
+                        self.st.probes[P_FROMITER_GAP] += 1;
                         self.st.fault_cfg[F_SOURCE] += 1;
                         self.st.fault_fired[F_SOURCE] += 1;
                     }
@@ -815,11 +835,22 @@ impl<'s, K: Kind<X>, X: Item> VecExec<'s, K, X> {
                 let relaxed = panic_at != 0 || op.f > 0;
                 let allow = m(OWN_FRESH) | m(OWN_DOOMED) | if relaxed { m(OWN_MAIN) } else { 0 };
                 let (r, fired) = {
-                    let src = StubSource { buf: items, sink: &mut sink, pulled: &mut pulled, eof_after, panic_at, hint, cap: n, calls: 0 };
+                    let src = StubSource { buf: items, sink: &mut sink, pulled: &mut pulled, eof_after, panic_at, hint, cap: n, calls: 0, gap_at, gap_done: false, polled_after_end: &mut polled_after_end };
                     guard(allow, 0, plan_of(Cb::Default, op.f), move || K::v_from_iter(src))
                 };
                 self.leftovers.append(&mut sink);
                 let _ = src_model;
+                if polled_after_end > 0 && !tok::has_violation() {
+                    // The end of a source is its first `None` (what a source does after that is
+                    // unspecified by the Iterator contract, so a consumer must not depend on it):
+                    // elements from beyond it were pulled, i.e. transferred although the sequence
+                    // had ended.
+                    tok::raise(V5_ORDER, format!("from_iter polled its source again after the source had returned None ({} more calls) and pulled elements from beyond the end of the sequence", polled_after_end));
+                    if let Ok(v) = r {
+                        std::mem::forget(v);
+                    }
+                    return true;
+                }
                 match r {
                     Ok(v) => {
                         // elements pulled beyond capacity must have been dropped by from_iter
@@ -1859,8 +1890,8 @@ impl<'s, K: Kind<X>, X: Item> VecExec<'s, K, X> {
                 let want = dq.len();
                 match (got, exp) {
                     (Some(t), Some(id)) => {
-                        if t.id != id {
-                            tok::raise(V5_ORDER, format!("inner iterator yielded id {}, model says {}", t.id, id));
+                        if t.lid() != id {
+                            tok::raise(V5_ORDER, format!("inner iterator yielded id {}, model says {}", t.lid(), id));
                             std::mem::forget(t);
                             return true;
                         }
